@@ -9,6 +9,7 @@ import sys
 import traceback
 
 CHECKS = {
+    "C03": [("harness.checks.storefam", "C03"), ("harness.checks.relayfam", "C03")],
     "C20": ("harness.checks.c20", "C20"),
     "C18": ("harness.checks.c18", "C18"),
     "C13": ("harness.checks.relayfam", "C13"),
@@ -62,7 +63,10 @@ def main(argv=None):
             outs.append(mod.run(prop, args.tier, seed, **kw))
         from .report import merge
 
-        return merge(outs).finish()
+        out = merge(outs)
+        if args.what in ("C03",):
+            out.level = "exploration"
+        return out.finish()
     except Exception:
         traceback.print_exc()
         print("MACHINERY-FAILURE check=%s" % args.what)
